@@ -465,6 +465,11 @@ def tria_stream(seed, n, size="small", classes=None, modifiers=True, first=()):
             if modifiers:
                 if rng.random() < 0.5:
                     v = rigid(rng, v, reflect=rng.random() < 0.3); tags.add("rigid")
+                r2 = np.random.default_rng([int(seed) & 0xFFFFFFFF, rnd, k, 77])       # separate PRNG: does not shift the other choices
+                if r2.random() < 0.15:           # the same shape far away from the origin (10^4 x its size): differences lose 4 digits, no more
+                    u = r2.normal(size=3); v = v + 1e4 * np.ptp(v, axis=0).max() * u / np.linalg.norm(u); tags.update({"rigid", "far-offset"})
+                elif r2.random() < 0.15:         # another unit of length
+                    sc = float(r2.choice([1e-4, 1e3])); v = v * sc; tags.update({"rigid", "unit:%g" % sc})
                 if rng.random() < 0.3:
                     t = flip_some(rng, t); tags.add("flipped")
                 if rng.random() < 0.3:
